@@ -47,6 +47,23 @@ v(B + "down_align", "contract", ["C11"], "src/bumping.rs::down_align", _BT, "r =
 v(B + "up_align_unchecked", "contract", ["C11"], "src/bumping.rs::up_align_unchecked", _BT, "addr+align-1 <= MAX ==> r == up(addr, align)")
 v(B + "up_align", "contract", ["C11"], "src/bumping.rs::up_align", _BT, "None iff addr == 0 or up(addr,align) > MAX; Some(up(addr,align))")
 v(B + "unlikely", "contract", ["C11"], "src/bumping.rs::unlikely", _BT, "r == condition")
+# ---- src/chunk/size.rs: the typed layer over ChunkSizeConfig (unbounded, every A and S)
+Z = "kernel::chunk_size::"
+_ZT = ["h_kernel::k_fresh_chunk_fits"]
+v(Z + "config", "contract", ["C12", "C05", "C10"], "src/chunk/size.rs::config", [], "the configuration of (A, S): up == S::UP, header layout = Layout::new::<ChunkHeader<A>>(), overhead (16, 8); satisfies cfg_valid")
+v(Z + "max", "contract", ["C12"], "src/chunk/size.rs::max", [], "max")
+v(Z + "ChunkSizeHint::new", "contract", ["C12"], "src/chunk/size.rs::ChunkSizeHint::new", [], "stores the hint")
+v(Z + "ChunkSizeHint::calc_size", "contract", ["C12", "C05", "C07"], "src/chunk/size.rs::ChunkSizeHint::calc_size", [],
+  "the size calc_size_from_hint prescribes for max(hint, S::MINIMUM_CHUNK_SIZE) under the configuration of (A, S): multiple of 16 (and of the header alignment when downward), >= header, >= hint - 16, None only when it does not fit usize")
+v(Z + "ChunkSizeHint::for_capacity", "contract", ["C12", "C07"], "src/chunk/size.rs::ChunkSizeHint::for_capacity", [], "the hint a capacity request needs (header + padding + bytes + overhead); None iff it exceeds usize")
+v(Z + "ChunkSizeHint::max", "contract", ["C12"], "src/chunk/size.rs::ChunkSizeHint::max", [], "the larger hint")
+v(Z + "ChunkSize::from_hint", "contract", ["C12", "C05", "C07"], "src/chunk/size.rs::ChunkSize::from_hint", [], "same as ChunkSizeHint::calc_size")
+v(Z + "ChunkSize::from_capacity", "contract", ["C12", "C07"], "src/chunk/size.rs::ChunkSize::from_capacity", [],
+  "a chunk sized for a capacity request is sized for the hint that request needs; None only on overflow")
+v(Z + "ChunkSize::align_allocation_size", "contract", ["C12", "C05", "C10"], "src/chunk/size.rs::ChunkSize::align_allocation_size", [],
+  "the size recorded for a granted block is the granted size rounded DOWN to 16 (and to the header alignment when downward): never more than was granted")
+v(Z + "ChunkSize::layout", "contract", ["C05", "C12"], "src/chunk/size.rs::ChunkSize::layout", [], "Some iff the size fits a Layout of the header alignment; then exactly (size, align_of ChunkHeader<A>)")
+
 for f, t in [("c11_up_some", "success upward: aligned, nearest, inside range, new_pos in range, past the block, multiple of min_align"),
              ("c11_up_none", "tight upward: None ==> no aligned block of that size in the range"),
              ("c11_up_hints", "result independent of truthful hints (upward)"),
@@ -550,6 +567,20 @@ for _n, _via in (("alloc_default_grow", False), ("alloc_default_grow_via_ref", T
 k("h_kernel2::k_up_align_usize_unchecked", ["C18", "C13"], ["lib::up_align_usize_unchecked"], "P", "r == up(addr, align) whenever addr + align - 1 does not overflow; every 64-bit input", timeout=300)
 k("h_kernel2::k_down_align_usize", ["C18", "C13"], ["lib::down_align_usize"], "P", "r == down(addr, align); every 64-bit input", timeout=300)
 k("h_kernel2::k_min_non_zero_cap", ["C08"], ["lib::min_non_zero_cap"], "P", "the first capacity of a growable vector is never zero (the amortisation policy itself is not prescribed); every element size", timeout=300)
+
+# ----------------------------------------------------------------------------- non-growing index operations of the exclusive vectors (h_rev.rs)
+for _n, _t in (("rev_remove_idx0_up", "index 0, up"), ("rev_remove_idx1_dn", "index 1, down"), ("rev_remove_idx2_up", "index 2, up"), ("rev_remove_idx3_dn", "index 3 (last), down")):
+    k("h_rev::" + _n, ["C08"], ["mut_bump_vec_rev::MutBumpVecRev::{try_push,remove,swap_remove,pop}"], "B",
+      "MutBumpVecRev<u16> of 4 symbolic elements over the contract stub: remove(i) for the given index, then remove(last), swap_remove(1) (mirrored: hole filled with the first element), pop (first element), pop on empty: same return values, length and contents as the mirrored std::vec::Vec meaning; buffer end and capacity unchanged",
+      bound="length 4, %s; allocator = contract stub" % _t, timeout=900)
+for _n, _t in (("fwd_remove_idx0_dn", "index 0, down"), ("fwd_remove_idx3_up", "index 3 (last), up")):
+    k("h_rev::" + _n, ["C08"], ["mut_bump_vec::MutBumpVec::{try_push,remove,swap_remove,truncate}"], "B",
+      "MutBumpVec<u16> of 4 symbolic elements over the contract stub: remove(i), swap_remove(0), truncate(1): same return values, length and contents as std::vec::Vec; buffer and capacity unchanged",
+      bound="length 4, %s; allocator = contract stub" % _t, timeout=900)
+for _n, _t in (("rev_truncate_to1_up", "to 1, up"), ("rev_truncate_to3_dn", "to 3, down")):
+    k("h_rev::" + _n, ["C08"], ["mut_bump_vec_rev::MutBumpVecRev::truncate"], "B",
+      "MutBumpVecRev::truncate keeps the LAST n elements (mirrored, as documented), length and contents checked",
+      bound="length 4, %s; allocator = contract stub" % _t, timeout=900)
 
 
 def for_property(pid, tier):
